@@ -19,4 +19,33 @@ theorem firstViolation_idx {l : List Byte} {k : ErrKind} {i : Nat}
       | (cases h; done)
       | (cases h; first | rfl | exact absurd rfl hk)
 
+theorem takeWhile_lt_of_any (p : Byte → Bool) (l : List Byte) (h : l.any (fun b => !p b) = true) :
+    (l.takeWhile p).length < l.length := by
+  induction l with
+  | nil => simp at h
+  | cons b r ih =>
+    by_cases hb : p b = true
+    · simp only [List.any_cons, hb, Bool.not_true, Bool.false_or] at h
+      simp only [List.takeWhile_cons, hb, if_true, List.length_cons]
+      have := ih h; omega
+    · simp [List.takeWhile_cons, hb]
+
+/-- The index reported with a violation points inside the suffix. -/
+theorem firstViolation_idx_lt {l : List Byte} {k : ErrKind} {i : Nat}
+    (h : firstViolation l = some (k, i)) : i < l.length := by
+  unfold firstViolation at h
+  split at h
+  · cases h
+  · rename_i b0 r
+    repeat' split at h
+    all_goals first | (cases h; done) | skip
+    all_goals cases h
+    all_goals try (simp; done)
+    rename_i hv
+    simp only [violates, Bool.and_eq_true] at hv
+    have h1 := takeWhile_lt_of_any isContByte _ hv.2
+    have h2 : (r.take (declaredLen b0 - 1)).length ≤ r.length := by simp [List.length_take]; omega
+    simp only [List.length_cons]
+    omega
+
 end SV.Utf8
